@@ -205,3 +205,63 @@ Proof.
 Qed.
 Lemma nas_ref_2_3 k dx lam z : 0 < dx -> 0 < lam -> k = 2 * PI / lam -> nas_ph_2_3 k dx lam z = z * kz_as lam (fgrid dx 4 3) (fgrid dx 3 2).
 Proof. intros Hd Hl Hk. unfold nas_ph_2_3, kz_as; subst k. align_sqrt ltac:(unfold fgrid; simpl; field; lra). field. lra. Qed.
+Lemma nas_radnn_0_0 k dx lam z : 0 < lam -> 0 < dx -> lam * lam <= 2 * (dx * dx) -> 0 <= nas_rad_0_0 k dx lam z.
+Proof.
+  intros Hl Hd Hg. replace (nas_rad_0_0 k dx lam z) with (1 - (lam * ((- (1 / 2)) / dx)) ^ 2 - (lam * ((- (1 / 2)) / dx)) ^ 2) by (unfold nas_rad_0_0; field; lra).
+  apply rad_as_nonneg; try assumption; lra.
+Qed.
+Lemma nas_radnn_0_1 k dx lam z : 0 < lam -> 0 < dx -> lam * lam <= 2 * (dx * dx) -> 0 <= nas_rad_0_1 k dx lam z.
+Proof.
+  intros Hl Hd Hg. replace (nas_rad_0_1 k dx lam z) with (1 - (lam * ((- (1 / 6)) / dx)) ^ 2 - (lam * ((- (1 / 2)) / dx)) ^ 2) by (unfold nas_rad_0_1; field; lra).
+  apply rad_as_nonneg; try assumption; lra.
+Qed.
+Lemma nas_radnn_0_2 k dx lam z : 0 < lam -> 0 < dx -> lam * lam <= 2 * (dx * dx) -> 0 <= nas_rad_0_2 k dx lam z.
+Proof.
+  intros Hl Hd Hg. replace (nas_rad_0_2 k dx lam z) with (1 - (lam * ((1 / 6) / dx)) ^ 2 - (lam * ((- (1 / 2)) / dx)) ^ 2) by (unfold nas_rad_0_2; field; lra).
+  apply rad_as_nonneg; try assumption; lra.
+Qed.
+Lemma nas_radnn_0_3 k dx lam z : 0 < lam -> 0 < dx -> lam * lam <= 2 * (dx * dx) -> 0 <= nas_rad_0_3 k dx lam z.
+Proof.
+  intros Hl Hd Hg. replace (nas_rad_0_3 k dx lam z) with (1 - (lam * ((1 / 2) / dx)) ^ 2 - (lam * ((- (1 / 2)) / dx)) ^ 2) by (unfold nas_rad_0_3; field; lra).
+  apply rad_as_nonneg; try assumption; lra.
+Qed.
+Lemma nas_radnn_1_0 k dx lam z : 0 < lam -> 0 < dx -> lam * lam <= 2 * (dx * dx) -> 0 <= nas_rad_1_0 k dx lam z.
+Proof.
+  intros Hl Hd Hg. replace (nas_rad_1_0 k dx lam z) with (1 - (lam * ((- (1 / 2)) / dx)) ^ 2 - (lam * ((0 / 1) / dx)) ^ 2) by (unfold nas_rad_1_0; field; lra).
+  apply rad_as_nonneg; try assumption; lra.
+Qed.
+Lemma nas_radnn_1_1 k dx lam z : 0 < lam -> 0 < dx -> lam * lam <= 2 * (dx * dx) -> 0 <= nas_rad_1_1 k dx lam z.
+Proof.
+  intros Hl Hd Hg. replace (nas_rad_1_1 k dx lam z) with (1 - (lam * ((- (1 / 6)) / dx)) ^ 2 - (lam * ((0 / 1) / dx)) ^ 2) by (unfold nas_rad_1_1; field; lra).
+  apply rad_as_nonneg; try assumption; lra.
+Qed.
+Lemma nas_radnn_1_2 k dx lam z : 0 < lam -> 0 < dx -> lam * lam <= 2 * (dx * dx) -> 0 <= nas_rad_1_2 k dx lam z.
+Proof.
+  intros Hl Hd Hg. replace (nas_rad_1_2 k dx lam z) with (1 - (lam * ((1 / 6) / dx)) ^ 2 - (lam * ((0 / 1) / dx)) ^ 2) by (unfold nas_rad_1_2; field; lra).
+  apply rad_as_nonneg; try assumption; lra.
+Qed.
+Lemma nas_radnn_1_3 k dx lam z : 0 < lam -> 0 < dx -> lam * lam <= 2 * (dx * dx) -> 0 <= nas_rad_1_3 k dx lam z.
+Proof.
+  intros Hl Hd Hg. replace (nas_rad_1_3 k dx lam z) with (1 - (lam * ((1 / 2) / dx)) ^ 2 - (lam * ((0 / 1) / dx)) ^ 2) by (unfold nas_rad_1_3; field; lra).
+  apply rad_as_nonneg; try assumption; lra.
+Qed.
+Lemma nas_radnn_2_0 k dx lam z : 0 < lam -> 0 < dx -> lam * lam <= 2 * (dx * dx) -> 0 <= nas_rad_2_0 k dx lam z.
+Proof.
+  intros Hl Hd Hg. replace (nas_rad_2_0 k dx lam z) with (1 - (lam * ((- (1 / 2)) / dx)) ^ 2 - (lam * ((1 / 2) / dx)) ^ 2) by (unfold nas_rad_2_0; field; lra).
+  apply rad_as_nonneg; try assumption; lra.
+Qed.
+Lemma nas_radnn_2_1 k dx lam z : 0 < lam -> 0 < dx -> lam * lam <= 2 * (dx * dx) -> 0 <= nas_rad_2_1 k dx lam z.
+Proof.
+  intros Hl Hd Hg. replace (nas_rad_2_1 k dx lam z) with (1 - (lam * ((- (1 / 6)) / dx)) ^ 2 - (lam * ((1 / 2) / dx)) ^ 2) by (unfold nas_rad_2_1; field; lra).
+  apply rad_as_nonneg; try assumption; lra.
+Qed.
+Lemma nas_radnn_2_2 k dx lam z : 0 < lam -> 0 < dx -> lam * lam <= 2 * (dx * dx) -> 0 <= nas_rad_2_2 k dx lam z.
+Proof.
+  intros Hl Hd Hg. replace (nas_rad_2_2 k dx lam z) with (1 - (lam * ((1 / 6) / dx)) ^ 2 - (lam * ((1 / 2) / dx)) ^ 2) by (unfold nas_rad_2_2; field; lra).
+  apply rad_as_nonneg; try assumption; lra.
+Qed.
+Lemma nas_radnn_2_3 k dx lam z : 0 < lam -> 0 < dx -> lam * lam <= 2 * (dx * dx) -> 0 <= nas_rad_2_3 k dx lam z.
+Proof.
+  intros Hl Hd Hg. replace (nas_rad_2_3 k dx lam z) with (1 - (lam * ((1 / 2) / dx)) ^ 2 - (lam * ((1 / 2) / dx)) ^ 2) by (unfold nas_rad_2_3; field; lra).
+  apply rad_as_nonneg; try assumption; lra.
+Qed.
